@@ -130,7 +130,7 @@ impl Reader {
         Reader { buf: Vec::new() }
     }
 
-    async fn fill(&mut self, s: &mut TcpStream, deadline: tokio::time::Instant) -> Result<usize, String> {
+    async fn fill<S: tokio::io::AsyncRead + Unpin>(&mut self, s: &mut S, deadline: tokio::time::Instant) -> Result<usize, String> {
         let mut tmp = [0u8; 16384];
         match tokio::time::timeout_at(deadline, s.read(&mut tmp)).await {
             Err(_) => Err("timeout".to_string()),
@@ -143,9 +143,9 @@ impl Reader {
     }
 
     /// Read one response.  `head_only`: the request was HEAD (no body follows).
-    pub async fn read_response(
+    pub async fn read_response<S: tokio::io::AsyncRead + Unpin>(
         &mut self,
-        s: &mut TcpStream,
+        s: &mut S,
         head_only: bool,
         timeout: Duration,
     ) -> Resp {
